@@ -125,3 +125,18 @@ Proof.
   rewrite (first_message_ixfr z ser true w r0 [] Hh Hr Ha). cbv zeta.
   apply Z.eqb_neq in Hne. rewrite Hne, Hlt. reflexivity.
 Qed.
+
+(* the other comparisons and the addition of dns.serial.Serial *)
+Lemma serial_gt_lt : forall a b, serial_gt a b = serial_lt b a.
+Proof.
+  intros a b. unfold serial_gt, serial_lt.
+  rewrite orb_comm. f_equal; f_equal; rewrite ?Z.gtb_ltb; reflexivity.
+Qed.
+
+(* RFC 1982 3.1/3.2: adding 0 < d < 2^31 gives a serial that is greater *)
+Lemma serial_add_greater : forall a d v, 0 < d < two31 -> serial_add a d = Ok v -> serial_lt a v = true.
+Proof.
+  intros a d v Hd H. unfold serial_add in H.
+  destruct (Z.abs d >? two31 - 1) eqn:E; [discriminate|]. inversion H; subst.
+  apply serial_lt_rfc1982. unfold two31, two32 in *. lia.
+Qed.
